@@ -5,6 +5,7 @@
 package engine
 
 import (
+	"crypto/sha256"
 	"encoding/json"
 	"fmt"
 	"regexp"
@@ -132,10 +133,10 @@ type Config struct {
 	MaxStates  int
 	Deadline   time.Duration // wall clock budget for the search (0 = none)
 	Workers    int
-	Horizon    time.Duration // per-transition horizon before the watchdog looks (default 20s)
-	Confirm    time.Duration // time between the two stack dumps that must agree (default 10s)
+	Horizon    time.Duration   // per-transition horizon before the watchdog looks (default 20s)
+	Confirm    time.Duration   // time between the two stack dumps that must agree (default 10s)
 	Known      map[string]bool // known-finding signatures (property|rule|site)
-	ReplayLeaf int           // number of leaf paths to re-execute straight-line
+	ReplayLeaf int             // number of leaf paths to re-execute straight-line
 	Quiet      bool
 	MemLimit   uint64 // heap bytes above which the search stops expanding (default 18 GiB); reported as a cap
 }
@@ -148,32 +149,38 @@ type KnownHit struct {
 }
 
 type Found struct {
-	Violation Violation `json:"violation"`
-	Path      []Op      `json:"path"`
-	Seed      int       `json:"seed"`
-	Reproduced int      `json:"reproduced"`
+	Violation  Violation `json:"violation"`
+	Path       []Op      `json:"path"`
+	Seed       int       `json:"seed"`
+	Reproduced int       `json:"reproduced"`
 }
 
 type Result struct {
-	Scenario     string
-	States       int
-	Transitions  int
-	MaxDepth     int
-	LevelSizes   []int
-	Exhaustive   bool
-	CapHit       string
-	Counters     map[string]int
-	OpCounts     map[string]int
-	Pruned       map[string]int
-	DistinctObs  int
-	Known        map[string]*KnownHit
-	Violations   []Found
-	Replays      int // straight-line replays executed
+	Scenario       string
+	States         int
+	Transitions    int
+	MaxDepth       int
+	LevelSizes     []int
+	Exhaustive     bool
+	CapHit         string
+	Counters       map[string]int
+	OpCounts       map[string]int
+	Pruned         map[string]int
+	DistinctObs    int
+	Known          map[string]*KnownHit
+	Violations     []Found
+	Replays        int // straight-line replays executed
 	ReplayMismatch []string
-	Samples      [][]string
-	Stuck        int
-	Wall         time.Duration
-	InternalError string
+	Samples        [][]string
+	Stuck          int
+	Wall           time.Duration
+	InternalError  string
+}
+
+// hashKey: states are identified by the SHA-256 of their canonical key (the keys themselves run to kilobytes).
+func hashKey(k string) string {
+	h := sha256.Sum256([]byte(k))
+	return string(h[:])
 }
 
 type node struct {
@@ -203,9 +210,9 @@ type task struct {
 }
 
 type taskResult struct {
-	idx  int
-	step Step
-	stuck bool
+	idx     int
+	step    Step
+	stuck   bool
 	skipped bool
 }
 
@@ -279,7 +286,7 @@ func Run(sc Scenario, cfg Config) *Result {
 	seen := map[string]*node{}
 	var frontier []*node
 	for i, s := range seeds {
-		k := s.Key()
+		k := hashKey(s.Key())
 		if _, ok := seen[k]; ok {
 			continue
 		}
@@ -466,7 +473,7 @@ func Run(sc Scenario, cfg Config) *Result {
 				if r.step.Next == nil {
 					continue
 				}
-				k := r.step.Next.Key()
+				k := hashKey(r.step.Next.Key())
 				if _, ok := seen[k]; ok {
 					continue
 				}
@@ -476,6 +483,9 @@ func Run(sc Scenario, cfg Config) *Result {
 					continue
 				}
 				n := &node{key: k, parent: t.n, op: t.op, depth: depth + 1, seed: t.n.seed, state: r.step.Next}
+				if cfg.MaxDepth > 0 && depth+1 >= cfg.MaxDepth {
+					n.state = nil // a state at the depth bound is never expanded: only its identity is kept
+				}
 				seen[k] = n
 				next = append(next, n)
 			}
@@ -541,7 +551,7 @@ func Run(sc Scenario, cfg Config) *Result {
 			p := n.path()
 			final, _ := sc.Replay(rw, n.seed, p)
 			res.Replays++
-			if final == nil || final.Key() != n.key {
+			if final == nil || hashKey(final.Key()) != n.key {
 				res.ReplayMismatch = append(res.ReplayMismatch, pathStrings(p)...)
 				res.InternalError = "straight-line replay diverges from snapshot/restore exploration: " + strings.Join(pathStrings(p), " ; ")
 				break
